@@ -12,7 +12,7 @@ From Coq Require Import String ZArith List Bool.
 From Coq.Strings Require Import Byte.
 From V Require Import Base.Bytes ASN1.DerBase ASN1.DerHeader ASN1.DerHeaderProofs ASN1.DerPrim ASN1.DerPrimProofs
   ASN1.DerModel ASN1.DerStructProofs ASN1.DerSimProofs ASN1.DerHeadline ASN1.DerTotalProofs
-  ASN1.DerRoundTrip ASN1.DerRoundTripField ASN1.Differences ASN1.DerPrefixProofs ASN1.DerGenTie Base.GoInt gen.Asn1.
+  ASN1.DerRoundTrip ASN1.DerRoundTripField ASN1.Differences ASN1.DerPrefixProofs ASN1.DerGenTie ASN1.DerGenLoops Base.GoInt gen.Asn1.
 Import ListNotations.
 Local Open Scope Z_scope.
 
@@ -176,6 +176,19 @@ Theorem base128_octets_as_in_source : forall n,
   base128_int_length_gen n = zlen (append_base128 n) /\ 0 <= base128_int_length_gen n <= 10.
 Proof. exact base128_int_length_meaning. Qed.
 Print Assumptions base128_octets_as_in_source.
+
+(* ... and the two loops that WRITE those octets (appendLength, appendBase128Int; octets as Z in the
+   translation, bz maps the model's bytes to them): what the source appends to dst is exactly what the model's
+   emitters produce, for every machine integer (a negative base-128 operand writes nothing) *)
+Theorem length_octets_written_as_in_source : forall dst i,
+  0 <= i <= max_i64 -> append_length_gen dst i = dst ++ map bz (len_bytes 8 i).
+Proof. exact append_length_meaning. Qed.
+Print Assumptions length_octets_written_as_in_source.
+
+Theorem base128_octets_written_as_in_source : forall dst n,
+  min_i64 <= n <= max_i64 -> append_base128_gen dst n = dst ++ map bz (append_base128 n).
+Proof. exact append_base128_meaning. Qed.
+Print Assumptions base128_octets_written_as_in_source.
 
 (* no input makes either decoder panic or loop, for any type, any parameters (the target is a
    non-nil pointer: D5 is a property of the target, outside the quantifier) *)
